@@ -29,6 +29,9 @@ func RunParse(t *testing.T, c *Case, s Sched, keepLog bool) *Obs {
 	sim := MakeSim(s, keepLog)
 	o := &Obs{Sched: s, Extra: map[string]string{}}
 	o.Sched.Policy = sim.Policy.Name()
+	if s.UseTape {
+		o.Sched.Policy = "tape"
+	}
 	live := &ParseLive{}
 	o.Live = live
 
